@@ -36,6 +36,9 @@ pub struct Case {
     /// authenticator's own transports), 2 all ["internal"], 3 alternating usb / internal+hybrid, 4 empty lists
     #[serde(default)]
     pub hints: u8,
+    /// the contract store answers "nothing found" with Ok(empty) instead of Err(NoCredentials)
+    #[serde(default)]
+    pub empty_ok: bool,
 }
 
 fn hinted(ids: &Option<Vec<Vec<u8>>>, hints: u8) -> Option<Vec<passkey_types::webauthn::PublicKeyCredentialDescriptor>> {
@@ -89,7 +92,10 @@ pub fn cases(tier: Tier) -> Vec<Case> {
                     for op in ["assert", "register"] {
                         let hs: &[u8] = if list.as_ref().map_or(true, |l| l.is_empty()) { &[0] } else { &[0, 1, 2, 3, 4] };
                         for &hints in hs {
-                            v.push(Case { content, newest_first, rp, list: list.clone(), op: op.into(), hints });
+                            v.push(Case { content, newest_first, rp, list: list.clone(), op: op.into(), hints, empty_ok: false });
+                            if hints == 0 {
+                                v.push(Case { content, newest_first, rp, list: list.clone(), op: op.into(), hints, empty_ok: true });
+                            }
                         }
                     }
                 }
@@ -97,7 +103,7 @@ pub fn cases(tier: Tier) -> Vec<Case> {
                     if s.contains("Option") && content.count_ones() > 1 {
                         continue;
                     }
-                    v.push(Case { content, newest_first: false, rp, list: list.clone(), op: format!("store:{s}"), hints: 0 });
+                    v.push(Case { content, newest_first: false, rp, list: list.clone(), op: format!("store:{s}"), hints: 0, empty_ok: false });
                 }
             }
         }
@@ -110,6 +116,7 @@ fn eval_authenticator(c: &Case) -> (Vec<Finding>, String) {
     let mut fs = vec![];
     let mut rs = RefStore::with(content_items(c.content));
     rs.newest_first = c.newest_first;
+    rs.empty_ok = c.empty_ok;
     let reference = rs.clone();
     let store = Shared::new(rs);
     let log = Log::new();
